@@ -134,18 +134,22 @@ pub(crate) fn eval_expr(ctx: &Context, expr: &Expr) -> Result<Value, QueryError>
                         expr.show(ctx)
                     )))
                 } else {
-                    let expr = (&expr
-                        * &ctx
-                            .lookup(scale)
-                            .expect(&*format!("Missing {} unit", scale)))
-                        .unwrap();
-                    Ok(Value::Number(
-                        (&expr
-                            + &ctx
-                                .lookup(base)
-                                .expect(&*format!("Missing {} constant", base)))
-                            .unwrap(),
-                    ))
+                    // The scale's unit and zero point are ordinary definitions:
+                    // a database may lack them, or define them in other units.
+                    let scale_unit = ctx
+                        .lookup(scale)
+                        .ok_or_else(|| QueryError::generic(format!("Missing {} unit", scale)))?;
+                    let zero_point = ctx
+                        .lookup(base)
+                        .ok_or_else(|| QueryError::generic(format!("Missing {} constant", base)))?;
+                    let expr = (&expr * &scale_unit)
+                        .ok_or_else(|| QueryError::generic("Exponent is too large".to_string()))?;
+                    (&expr + &zero_point).map(Value::Number).ok_or_else(|| {
+                        QueryError::generic(format!(
+                            "The {} constant is not a multiple of the {} unit",
+                            base, scale
+                        ))
+                    })
                 }
             }
         },
@@ -1076,18 +1080,23 @@ pub(crate) fn eval_query(ctx: &Context, expr: &Query) -> Result<QueryReply, Quer
             };
             let bottom = ctx
                 .lookup(scale)
-                .expect(&*format!("Unit {} missing", scale));
+                .ok_or_else(|| QueryError::generic(format!("Unit {} missing", scale)))?;
             if top.unit != bottom.unit {
                 Err(QueryError::Conformance(Box::new(conformance_err(
                     ctx, top, &bottom,
                 ))))
             } else {
-                let res = (top
-                    - &ctx
-                        .lookup(base)
-                        .expect(&*format!("Constant {} missing", base)))
-                    .unwrap();
-                let res = (&res / &bottom).unwrap();
+                let zero_point = ctx
+                    .lookup(base)
+                    .ok_or_else(|| QueryError::generic(format!("Constant {} missing", base)))?;
+                let res = (top - &zero_point).ok_or_else(|| {
+                    QueryError::generic(format!(
+                        "The {} constant is not a multiple of the {} unit",
+                        base, scale
+                    ))
+                })?;
+                let res = (&res / &bottom)
+                    .ok_or_else(|| QueryError::generic(format!("Unit {} is zero", scale)))?;
                 let mut name = BTreeMap::new();
                 name.insert(deg.to_string(), 1);
                 Ok(QueryReply::Conversion(Box::new(ctx.show(
